@@ -219,7 +219,6 @@ func main() {
 	}
 	os.MkdirAll(*out, 0o755)
 	sort.Slice(extractors, func(i, j int) bool { return extractors[i].Module < extractors[j].Module })
-	produced := map[string]bool{}
 	failed := false
 	for _, e := range extractors {
 		r := &Repo{Root: *repo, Fset: token.NewFileSet(), cache: map[string]*ast.File{}}
@@ -243,7 +242,6 @@ func main() {
 		w.Line("")
 		w.Line("end EgVerif.Gen.%s", e.Module)
 		p := filepath.Join(*out, e.Module+".lean")
-		produced[e.Module+".lean"] = true
 		old, _ := ioutil.ReadFile(p)
 		if string(old) != w.sb.String() {
 			if err := ioutil.WriteFile(p, []byte(w.sb.String()), 0o644); err != nil {
@@ -251,14 +249,6 @@ func main() {
 				os.Exit(1)
 			}
 			fmt.Printf("factextract: wrote %s\n", p)
-		}
-	}
-	// remove stale generated files
-	if ents, err := ioutil.ReadDir(*out); err == nil {
-		for _, en := range ents {
-			if strings.HasPrefix(en.Name(), "Facts") && strings.HasSuffix(en.Name(), ".lean") && !produced[en.Name()] {
-				os.Remove(filepath.Join(*out, en.Name()))
-			}
 		}
 	}
 	if failed {
